@@ -1,4 +1,6 @@
 """C28 — String and collection functions obey their algebraic laws."""
+import unicodedata
+
 import vlib
 from vlib import coq_value, coq_bool, coq_z, js, jb, ji, jf_bits, jo, ja
 import gen
@@ -488,9 +490,41 @@ def _len_changing(ch):
     return len(lo) != 1 or len(lo.encode()) != len(ch.encode())
 
 
+def _out_text(o, i):
+    try:
+        return bytes.fromhex(o["outs"][i]["ok"]["b"]).decode("utf-8", "replace")
+    except Exception:
+        return None
+
+
+def _casing_matcher(cls, c, o):
+    a = c["args"][0] if c.get("args") else None
+    if cls == "snakecase-nonstring-panic":
+        return "panic" in o and "snakecase" in o.get("src", "") and not (isinstance(a, dict) and "b" in a)
+    if "panic" in o or not (isinstance(a, dict) and "b" in a):
+        return False
+    text = bytes.fromhex(a["b"]).decode("utf-8", "replace")
+    if cls == "casing-multichar-upper":
+        return any(len(ch.upper()) > 1 or (unicodedata.combining(ch) and ch.upper() != ch) for ch in text)
+    if cls == "casing-titlecase":
+        return any(unicodedata.category(ch) == "Lt" for ch in text)
+    if cls == "casing-camel-resegmentation":
+        # only camelcase / pascalcase (outs 0..3) may differ, and the first pass must show a capital that follows
+        # another capital or a non-alphanumeric char (a boundary that only the removed separator marked)
+        outs = [_out_text(o, i) for i in range(10)]
+        if None in outs or any(outs[i] != outs[i + 1] for i in (4, 6, 8)):
+            return False
+        bad = [i for i in (0, 2) if outs[i] != outs[i + 1]]
+        base = [[ch for ch in t if not unicodedata.combining(ch)] for t in outs]
+        return bool(bad) and all(any((x.isupper() or not x.isalnum()) and y.isupper() for x, y in zip(base[i], base[i][1:])) for i in bad)
+    return False
+
+
 def known_matcher(entry, c, o):
     cls = entry.get("match", {}).get("class")
     op = c.get("op")
+    if op == "casing":
+        return _casing_matcher(cls, c, o)
     if op not in ("starts_with", "ends_with", "contains"):
         return False
     s, p = _arg_bytes(c, 0), _arg_bytes(c, 1)
